@@ -10,8 +10,6 @@ from .sim import Sim
 def replay_ops(prop, cfg, ops, xgi=None, hooks=None):
     s = Sim(prop, cfg, None, xgi)
     s.hooks = hooks
-    if hooks is not None and hasattr(hooks, "init"):
-        hooks.init(s)
     res = s.run_replay(copy.deepcopy(ops))
     return res
 
